@@ -441,3 +441,11 @@ SPECS += [
                                               "ret": "Bool"}},
          drop_assign=["fail_info"], props=["C07"]),
 ]
+
+# ---- sdk/adapter.py : where a delay adapter takes its clamp time from (C13 C04 C02) -----------------------------------
+SPECS += [
+    dict(lean="TimeDelayAdapter_get_info", path="sdk/adapter.py", qual="TimeDelayAdapter.get_info", group="Delay",
+         fields={"initial_time": "Opt[Time]"}, params={}, ignore_params=["info"], extra_params={"src_time": "Opt[Time]", "req_time": "Opt[Time]"},
+         ret="Unit", return_unit=["self._output_info"], ignore_fields=["_output_info"],
+         alias={"self._output_info.time": "src_time", "info.time": "req_time"}, props=["C13", "C04", "C02"]),
+]
